@@ -1,6 +1,7 @@
 """C11 cross-process determinism probe — executed in a FRESH interpreter under a given PYTHONHASHSEED:
     python c11_probe.py <variant-seed> <rebuild-rounds> [name ...]
     python c11_probe.py <variant-seed> fresh <recompile-program> <label>
+    python c11_probe.py <variant-seed> seq <independent-program> ...     (in this order, one interpreter)
 Builds a directed set of programs written directly against PyTeal's public API (dict/set/enum driven constructs:
 InnerTxnBuilder.MethodCall / ExecuteMethodCall / SetFields / Execute with several fields, transaction-typed method
 arguments, Router programs, subroutine-heavy programs, many ScratchVars, Cond, NamedTuple, abi.make, methods with
@@ -442,7 +443,160 @@ def programs(vseed):
             out.append(app(e, **kw))
         return "\n====\n".join(out)
 
-    return P, RC, RB
+    # ------------------------------------------------------------------------------------------
+    # independent little programs (no shared objects), each built AND compiled by its factory; a child runs them in some
+    # order in ONE interpreter; every outcome — TEAL or which error — must equal that of the program alone in a fresh one.
+    HS = {}
+
+    def hs(fn):
+        HS[fn.__name__] = fn
+        return fn
+
+    SIG = "ping()void"
+    ADDR = "AAAAAAAAAAAAAAAAAAAAAAAAAAAAAAAAAAAAAAAAAAAAAAAAAAAAY5HFKQ"
+    ADDR2 = "7777777777777777777777777777777777777777777777777774MSJUVU"
+
+    def ac(e, v=6, mode=pt.Mode.Application):
+        return pt.compileTeal(e, mode, version=v, assembleConstants=True)
+
+    @hs
+    def c_method_signature():
+        return ac(pt.Seq(pt.Pop(pt.MethodSignature(SIG)), pt.If(pt.Txn.application_args[0] == pt.MethodSignature(SIG), pt.Approve(), pt.Reject())))
+
+    @hs
+    def c_bytes_with_signature_text():
+        return ac(pt.Seq(pt.Log(pt.Bytes(SIG)), pt.Log(pt.Bytes(SIG)), pt.Log(pt.Bytes("x" + SIG)), pt.Approve()))
+
+    @hs
+    def c_bytes_with_tmpl_text():
+        return ac(pt.Seq(pt.Log(pt.Bytes("TMPL_X")), pt.Log(pt.Bytes("TMPL_X")), pt.Log(pt.Bytes("TMPL_ADDR")), pt.Pop(pt.Int(7) + pt.Int(7)), pt.Approve()))
+
+    @hs
+    def c_tmpl_constants():
+        return ac(pt.Seq(pt.Log(pt.Tmpl.Bytes("TMPL_X")), pt.Log(pt.Tmpl.Bytes("TMPL_X")), pt.Pop(pt.Tmpl.Addr("TMPL_ADDR")), pt.Pop(pt.Tmpl.Int("TMPL_X") + pt.Tmpl.Int("TMPL_X")), pt.Approve()))
+
+    @hs
+    def c_addr_constants():
+        return ac(pt.Seq(pt.Pop(pt.Addr(ADDR)), pt.Pop(pt.Addr(ADDR)), pt.Pop(pt.Addr(ADDR2)), pt.Approve()))
+
+    @hs
+    def c_bytes_with_addr_text():
+        return ac(pt.Seq(pt.Log(pt.Bytes(ADDR)), pt.Log(pt.Bytes(ADDR)), pt.Log(pt.Bytes(ADDR2)), pt.Approve()))
+
+    @hs
+    def c_bytes_encodings_same_value():
+        return ac(pt.Seq(pt.Log(pt.Bytes("base16", "0x70696e67")), pt.Log(pt.Bytes("base64", "cGluZw==")), pt.Log(pt.Bytes("ping")), pt.Log(pt.Bytes("base32", "OBUW4ZY")),
+                         pt.Log(pt.Bytes("0x70696e67")), pt.Log(pt.Bytes("cGluZw==")), pt.Approve()))
+
+    @hs
+    def c_int_names_and_values():
+        return ac(pt.Seq(pt.Pop(pt.OnComplete.NoOp + pt.Int(0) + pt.TxnType.Payment + pt.Int(1) + pt.OnComplete.OptIn + pt.Int(1) + pt.TxnType.ApplicationCall + pt.Int(6)),
+                         pt.Approve()), 5)
+
+    @hs
+    def c_method_signature_v8_router_like():
+        return ac(pt.Cond([pt.Txn.application_args[0] == pt.MethodSignature("add(uint64,uint64)uint64"), pt.Approve()],
+                          [pt.Txn.application_args[0] == pt.MethodSignature(SIG), pt.Seq(pt.Log(pt.Bytes("add(uint64,uint64)uint64")), pt.Approve())]), 8)
+
+    def loop_fail(kind):
+        i = pt.ScratchVar(T.uint64)
+        if kind == "sqrt3":
+            return pt.compileTeal(pt.Seq(i.store(pt.Int(0)), pt.While(i.load() < pt.Int(3)).Do(pt.Seq(pt.Pop(pt.Sqrt(pt.Int(4))), i.store(i.load() + pt.Int(1)))), pt.Int(1)),
+                                  pt.Mode.Signature, version=3)
+        if kind == "log4":
+            return app(pt.Seq(pt.For(i.store(pt.Int(0)), i.load() < pt.Int(3), i.store(i.load() + pt.Int(1))).Do(
+                pt.Seq(pt.While(pt.Int(1)).Do(pt.Seq(pt.Log(pt.Bytes("x")), pt.Break())))), pt.Approve()), 4)
+        if kind == "sub6":
+            @pt.Subroutine(T.none)
+            def looper(n):
+                return pt.While(n > pt.Int(0)).Do(pt.Seq(pt.Pop(pt.Replace(pt.Bytes("abc"), pt.Int(0), pt.Bytes("z"))), pt.Continue()))
+            return app(pt.Seq(looper(pt.Int(2)), pt.Approve()), 6)
+        if kind == "type":
+            return app(pt.Seq(i.store(pt.Int(0)), pt.While(i.load() < pt.Int(3)).Do(pt.Seq(i.store(pt.Btoi(pt.Int(1))))), pt.Approve()), 6)
+
+    @hs
+    def f_while_body_op_above_version_3():
+        return loop_fail("sqrt3")
+
+    @hs
+    def f_nested_for_while_op_above_version_4():
+        return loop_fail("log4")
+
+    @hs
+    def f_subroutine_while_op_above_version_6():
+        return loop_fail("sub6")
+
+    @hs
+    def f_while_body_ill_typed():
+        return loop_fail("type")
+
+    @hs
+    def f_subroutine_body_raises_v8():
+        @pt.Subroutine(T.uint64)
+        def bad(a):
+            raise ValueError("probe")
+        return app(pt.Seq(pt.Pop(bad(pt.Int(1))), pt.Approve()), 8)
+
+    @hs
+    def f_too_many_slots():
+        vs = [pt.ScratchVar(T.uint64) for _ in range(257)]
+        return app(pt.Seq(*[v.store(pt.Int(1)) for v in vs], pt.Approve()), 6)
+
+    @hs
+    def r_break_outside_loop():
+        return app(pt.Seq(pt.If(pt.Txn.fee() > pt.Int(3)).Then(pt.Break()), pt.Approve()), 6)
+
+    @hs
+    def r_continue_outside_loop():
+        return app(pt.Seq(pt.If(pt.Txn.fee() > pt.Int(3)).Then(pt.Continue()), pt.Approve()), 8)
+
+    @hs
+    def r_break_in_subroutine_outside_loop():
+        @pt.Subroutine(T.none)
+        def s_(n):
+            return pt.Seq(pt.If(n).Then(pt.Break()), pt.Pop(n))
+        i = pt.ScratchVar(T.uint64)
+        return app(pt.Seq(i.store(pt.Int(0)), pt.While(i.load() < pt.Int(2)).Do(pt.Seq(s_(i.load()), i.store(i.load() + pt.Int(1)))), pt.Approve()), 6)
+
+    @hs
+    def r_return_outside_type():
+        @pt.Subroutine(T.uint64)
+        def s_(n):
+            return pt.Seq(pt.If(n).Then(pt.Return()), pt.Int(1))
+        return app(pt.Seq(pt.Pop(s_(pt.Int(1))), pt.Approve()), 6)
+
+    @hs
+    def r_uninitialised_load():
+        a, b_ = pt.ScratchVar(T.uint64), pt.ScratchVar(T.uint64)
+        return app(pt.Seq(b_.store(pt.Int(1)), pt.Pop(a.load() + b_.load()), pt.Approve()), 6)
+
+    @hs
+    def r_duplicate_reserved_slot():
+        a, b_ = pt.ScratchVar(T.uint64, 7), pt.ScratchVar(T.uint64, 7)
+        return app(pt.Seq(a.store(pt.Int(1)), b_.store(pt.Int(2)), pt.Approve()), 6)
+
+    @hs
+    def r_frame_pointers_below_8():
+        return app(pt.Approve(), 6, optimize=pt.OptimizeOptions(frame_pointers=True))
+
+    @hs
+    def o_loops_with_break_and_continue():
+        i, j = pt.ScratchVar(T.uint64), pt.ScratchVar(T.uint64)
+        return app(pt.Seq(pt.For(i.store(pt.Int(0)), i.load() < pt.Int(3), i.store(i.load() + pt.Int(1))).Do(pt.Seq(
+            j.store(pt.Int(0)), pt.While(j.load() < pt.Int(5)).Do(pt.Seq(pt.If(j.load() == pt.Int(2)).Then(pt.Break()), j.store(j.load() + pt.Int(1)),
+                                                                       pt.If(j.load() == pt.Int(1)).Then(pt.Continue()))), pt.If(i.load()).Then(pt.Continue()))), pt.Approve()), 6)
+
+    @hs
+    def o_abi_main_and_subroutine_v8():
+        x = abi.Uint64()
+
+        @pt.Subroutine(T.uint64)
+        def twice(a: abi.Uint64):
+            y = abi.Uint64()
+            return pt.Seq(y.set(a.get() * pt.Int(2)), y.get())
+        return app(pt.Seq(x.set(pt.Int(7)), pt.Pop(twice(x)), pt.Approve()), 8)
+
+    return P, RC, RB, HS
 
 
 def rebuild(fn, vseed, rounds):
@@ -488,13 +642,21 @@ def main():
     vseed = int(sys.argv[1])
     if sys.argv[2] == "fresh":
         # a FRESH object of recompile program NAME compiled exactly once, at LABEL
-        P, RC, RB = programs(vseed)
+        P, RC, RB, HS = programs(vseed)
         json.dump(one(RC[sys.argv[3]]["build"](), sys.argv[4]), sys.stdout)
+        return
+    if sys.argv[2] == "seq":
+        # the independent programs NAME1 NAME2 ... built and compiled in this order in this interpreter
+        P, RC, RB, HS = programs(vseed)
+        json.dump([[nm, one(lambda _l, nm=nm: HS[nm](), None)] for nm in sys.argv[3:]], sys.stdout)
+        return
+    if sys.argv[2] == "names":
+        json.dump(list(programs(vseed)[3]), sys.stdout)
         return
     rounds = int(sys.argv[2])
     only = sys.argv[3:]
     out = {}
-    P, RC, RB = programs(vseed)
+    P, RC, RB, HS = programs(vseed)
     for name, fn in P.items():
         if only and name not in only:
             continue
